@@ -46,6 +46,7 @@ def run(tier, replay=None, pid=PID, theorems=THEOREMS, oracle=the_oracle, ks=(1,
     res.coverage.update({"evaluations": len(cases), "distinct_nontrivial": distinct_nontrivial(cases, lambda c: len(c[1]) - c[0] + components(c[0], c[1]) >= 1),
         "rule": "graphs as in C16 x {approx_mcb_sva_signed, _fvs_trees, _iso_trees} x k in %s; non-trivial = cycle space dimension >= 1" % (list(ks),),
         "traces_validated_against_impl": len(oks), "spanner_cycles_total": sum(int(w[5]) for w in oks), "edge_cycles_total": sum(int(w[6]) for w in oks),
+        "edge_cycles_equal_to_the_literal_heap_dijkstra_path": sum(int(w[8]) for w in oks if len(w) > 8),
         "k_histogram": {str(k): sum(1 for m in meta.values() if m[1] == k) for k in ks},
         "samples": [{"n": c[0], "edges": c[1], "variant": meta[k][0], "k": meta[k][1]} for k, c in list(cases.items())[-2:]], **stats(cases)})
     if bad or viols:
